@@ -472,3 +472,31 @@ Proof.
 Qed.
 Lemma go_fields_length s : (List.length (go_fields s) <= String.length s)%nat.
 Proof. apply fields_mask_length. Qed.
+
+(* ======================================================================================== *)
+(* 5. tarfs FS.open: every recursive call raises the hop counter, so maxHops + 2 calls are enough  *)
+Lemma tarfs_incr_hard : (1 <= fst tarfs_hop_incr)%Z. Proof. vm_compute. discriminate. Qed.
+Lemma tarfs_incr_sym : (1 <= snd tarfs_hop_incr)%Z. Proof. vm_compute. discriminate. Qed.
+Lemma tarfs_open_returns idx : forall fuel name hops,
+  (1 <= fuel)%nat -> (tarfs_max_hops + 2 - hops <= Z.of_nat fuel)%Z -> Returns (tarfs_open fuel idx name hops).
+Proof.
+  pose proof tarfs_incr_hard as Hh. pose proof tarfs_incr_sym as Hs.
+  induction fuel as [|f IH]; intros name hops H1 L; [lia|].
+  cbn [tarfs_open]. destruct (tarfs_max_hops <? hops)%Z eqn:E; [apply returns_err|]. apply Z.ltb_ge in E.
+  destruct (alookup name idx) as [e|]; [|apply returns_err].
+  destruct (tn_kind e =? 1)%Z; [apply IH; lia|]. destruct (tn_kind e =? 2)%Z; [apply IH; lia|apply returns_ok].
+Qed.
+Lemma tarfs_open_name_returns es name : Returns (tarfs_open_name es name).
+Proof.
+  unfold tarfs_open_name, tarfs_fuel. assert (M : (0 <= tarfs_max_hops)%Z) by (vm_compute; discriminate).
+  apply tarfs_open_returns; [apply Nat2Z.inj_le; rewrite Z2Nat.id; lia|rewrite Z2Nat.id; lia].
+Qed.
+(* more fuel changes nothing once the chase has ended *)
+Lemma tarfs_open_mono idx : forall fuel name hops r, tarfs_open fuel idx name hops = r -> r <> OutOfFuel ->
+  forall fuel', (fuel <= fuel')%nat -> tarfs_open fuel' idx name hops = r.
+Proof.
+  induction fuel as [|f IH]; intros name hops r H N fuel' L; [cbn in H; congruence|].
+  destruct fuel' as [|f']; [lia|]. cbn [tarfs_open] in *. destruct (tarfs_max_hops <? hops)%Z; [exact H|].
+  destruct (alookup name idx) as [e|]; [|exact H].
+  destruct (tn_kind e =? 1)%Z; [apply (IH _ _ _ H N); lia|]. destruct (tn_kind e =? 2)%Z; [apply (IH _ _ _ H N); lia|exact H].
+Qed.
